@@ -126,7 +126,7 @@ def ns_inv(w, full_lookup=True):
                 for nm in list(names) + ['zz_absent']:
                     got = sorted(w.tok_id(x) for x in getter(o, nm))
                     want = sorted(w.tok_id(c) for c in kids if c.get('.NAME') == nm)
-                    if nm and not any(ch in nm for ch in '*?[') and got != want:
+                    if not any(ch in nm for ch in '*?[') and got != want:
                         bad.append('lookup %s(#%d, %r) = %s but scan = %s' % (getter.__name__, i, nm, got, want))
                 if edif:
                     for c in kids:
